@@ -214,6 +214,12 @@ PURE_METHODS = set(
 )
 
 
+PURE_EXT_CALLS = {
+    "re.compile", "re.escape", "operator.itemgetter", "operator.attrgetter", "functools.partial", "itertools.product",
+    "itertools.chain", "collections.namedtuple",
+}
+
+
 def impure(ctx, m, expr):
     """None when the expression only builds values from constants with pure builtins, str/dict
     methods and side-effect-free package functions; otherwise a description of the impure call."""
@@ -236,6 +242,17 @@ def impure(ctx, m, expr):
             if isinstance(f, ast.Attribute):
                 if f.attr in PURE_METHODS:
                     continue
+                if isinstance(f.value, ast.Name):
+                    # functions of standard modules that build a value and touch nothing the
+                    # property names (a compiled pattern, a partial, an itemgetter)
+                    r = ctx.repo.resolve_global(m, f.value.id)
+                    dotted = None
+                    if r is not None and r[0] == "ext":
+                        dotted = "%s.%s" % (r[1], f.attr)
+                    elif m.imports.get(f.value.id, (None,))[0] == "module":
+                        dotted = "%s.%s" % (m.imports[f.value.id][1], f.attr)
+                    if dotted in PURE_EXT_CALLS:
+                        continue
                 return "a call of .%s()" % f.attr
             return "a computed call"
         if isinstance(n, (ast.Yield, ast.YieldFrom, ast.Await, ast.NamedExpr)):
